@@ -16,6 +16,7 @@ PROP = {
         "quick": [B("stable"), B("nightly", 0.25, False)],
         "thorough": [B("stable"), B("nightly", 0.5, False)],
     },
+    "fuzz": {"target": "c17_history", "runs": {"thorough": 500000}},
     "technique": "model-based property testing: proptest-generated histories of constructor / lane-write / read-and-rebuild steps interpreted against an array-of-bits model, all read paths "
                  "compared after every step, for 34 vector types and both quaternion types in the SSE2, scalar-math and nightly core-simd builds; named constants enumerated",
     "level_text": "Generated-history search: for each of the 34 numeric vector types, Quat and DQuat, random histories (length 0..32) of constructions, single-lane writes and "
